@@ -14,13 +14,13 @@ const NAMES: &[&str] = &[
 const COOKWARE: &[&str] = &["pan", "oven", "big bowl", "whisk", "pot", "baking tray"];
 const UNITS: &[&str] = &[
     "g", "kg", "ml", "l", "cup", "cups", "tsp", "tbsp", "oz", "lb", "min", "minutes", "h", "bag",
-    "°C", "F", "pinch", "", "c", "C", "m",
+    "°C", "F", "pinch", "", "c", "C", "m", "EL", "Gramm", "Tasse",
 ];
 const TIME_UNITS: &[&str] = &["min", "minutes", "h", "s", "hour", ""];
 const WORDS: &[&str] = &[
     "Add", "the", "and", "mix", "until", "combined", "then", "bake", "for", "about", "Let", "rest",
     "Préchauffer", "à", "stir", "well", "180 °C", "20 ºC", "350 F", "1/2", "3", "–", "ñ", "🍅",
-    "2 cups", "2 Cups", "5 min", "5 Min", "3 c", "3 C", "100 g", "100 G",
+    "2 cups", "2 Cups", "5 min", "5 Min", "3 c", "3 C", "100 g", "100 G", "2 EL", "3 Tassen", "20 Minuten", "1 Liter", "2 Kg", "1 dekagram", "3 KL", "5 dal",
     // short block comments and other comment shapes
     "[- x -]", "[--]", "[-a-]", "[- ok -]", "[- v2 -]", "[-  -]", "[- or -]", "a[-b-]c",
 ];
@@ -189,7 +189,11 @@ fn step(r: &mut Rng, seen: &mut Vec<String>, invalid: bool) -> String {
 fn meta_line(r: &mut Rng) -> String {
     let k = r.pick(META_KEYS);
     let v = match *k {
-        "time" | "prep time" | "cook time" | "time required" | "duration" => match r.below(5) {
+        "time" | "prep time" | "cook time" | "time required" | "duration" => match r.below(8) {
+            // values that are not a whole number of minutes, and compound ones
+            5 => "50 sec".to_string(),
+            6 => "1 h 20 min 30 sec".to_string(),
+            7 => r.pick_str(&["1.5", "90 s", "0.5 h", "1 day 2 hours", "2 Stunden"]).to_string(),
             0 => "1h 30min".to_string(),
             1 => format!("{} min", r.range(1, 90)),
             2 => format!("{}", r.range(1, 90)),
